@@ -163,6 +163,15 @@ let () =
              | _, _ -> Some "request-accepted-although-head-rejected" in
            run_try ~rq url targets echo n 0 data
              (fun ir left -> if not (oracle_c02_roundtrip m t fs tail ir left) then Some "must-accept-head-not-parsed-to-its-parts" else rq_check ir) otoks
+       | ["task"; _lg; stream] ->
+         (* the connection task hands the handler the method of the head verbatim (whatever the method: HEAD is HEAD) *)
+         let stream = bytes_of_tok stream in
+         let (r, _) = try_read url { fb_rd = O; fb_data = stream } in
+         (match r with
+          | Ok h ->
+            let m = "task 200 m=" ^ tok_of_bytes h.h_method in
+            Printf.printf "%s%s | %s\n" echo m (if String.concat " " otoks = m then "oracle=ok" else "oracle=fail@handler-sees-another-method")
+          | _ -> Printf.printf "%s%s | oracle=ok\n" echo (String.concat " " otoks))
        | _ -> print_string "? | oracle=badcase\n")
     with
     | Url_miss -> print_string "urlmiss | oracle=fail@urlmiss\n"
